@@ -9,7 +9,7 @@ os.environ.setdefault("LITEX_VERIF", "1")
 from . import shim312
 shim312.install()
 import logging
-logging.disable(logging.WARNING)      # litex.soc.integration.soc logs the whole SoC hierarchy at INFO
+logging.disable(logging.CRITICAL)      # litex.soc.integration.soc logs the whole SoC hierarchy at INFO
 
 _CAP = {}
 _KEEP = []   # keep instances alive so that id() keys stay unique
